@@ -1,6 +1,7 @@
 import TaskModel.Gen.PanicSites
 /-
-Decode.Sites — every expression on the load / compile / resolve / list path that can
+Decode.Sites — every expression on the load / compile / resolve / list / watch path and in the command-line
+front end (cmd/task, internal/flags, internal/logger, taskrc) that can
 panic by itself (index, slice, unchecked type assertion, Must*, explicit panic, a field read through
 the element of a list of pointers without a nil guard), as
 extracted from the current source (local variables printed as ‹their type›, so renaming them does not
@@ -15,72 +16,154 @@ an even number of children and the loop steps by two (`mapping_pairs_in_range`);
 -/
 namespace TaskModel.Decode
 
-def discharged : List (String × String × String × String) := [
-  ("args:Get", "slice", "‹[]string›[‹int›:]", "guard: doubleDashPos = pflag.ArgsLenAtDash() is -1 (returned before) or ≤ len(args)"),
-  ("args:Get", "slice", "‹[]string›[:‹int›]", "guard: doubleDashPos = pflag.ArgsLenAtDash() is -1 (returned before) or ≤ len(args)"),
-  ("args:splitVar", "index", "‹[]string›[0]", "split: SplitN always returns at least one element"),
-  ("args:splitVar", "index", "‹[]string›[1]", "guard: only called for arguments that contain '=' (Parse checks strings.Contains(arg, \"=\")), SplitN(s, \"=\", 2) then has two elements"),
-  ("errors:TaskfileDecodeError.Error", "index", "‹*yaml.TypeError›.Errors[0]", "guard: len(te.Errors) > 1 is handled before, yaml.TypeError has at least one entry"),
-  ("errors:extractTypeErrorMessage", "index", "‹[]string›[1]", "guard: len(matches) == 2 checked"),
-  ("internal/deepcopy:Slice", "index", "‹[]T›[‹int›]", "loop: c has the length of the ranged slice"),
-  ("internal/deepcopy:TraverseStringsFunc", "assert", "‹reflect.Value›.Interface().(T)", "lib: copy is reflect.New of T's type, Elem has dynamic type T"),
-  ("internal/env:GetEnviron", "index", "‹[]string›[0]", "split: SplitN returns at least one element"),
-  ("internal/env:GetEnviron", "index", "‹[]string›[1]", "lib: os.Environ entries have the form key=value"),
-  ("internal/execext:ExpandLiteral", "index", "‹[]*syntax.Word›[0]", "guard: len(words) == 0 returns before"),
-  ("internal/output:prefixWriter.writeLine", "index", "PrefixColorSequence[‹uint›%uint(len(PrefixColorSequence))]", "const: modulo the length of a non-empty table"),
-  ("internal/sort:AlphaNumericWithRootTasksFirst", "index", "‹[]string›[‹int›]", "loop: indices handed to sort.Slice's less function"),
-  ("internal/version:getCommit", "slice", "‹debug.BuildSetting›.Value[:7]", "guard: len(setting.Value) > 7 branch; vcs.revision is a full hash"),
-  ("task:Compiler.getSpecialVars", "index", "os.‹[]string›[0]", "lib: a process has a program name"),
-  ("task:Executor.GetTask", "index", "‹[]*task.MatchingTask›[0]", "guard: len(matchingTasks) > 0"),
-  ("task:Executor.GetTaskList", "index", "‹[]*ast.Task›[‹int›]", "loop"),
-  ("task:Executor.RunTask", "index", "‹*ast.Task›.Cmds[‹int›]", "loop: i ranges over t.Cmds"),
-  ("task:Executor.ToEditorOutput", "index", "‹*editors.Taskfile›.Tasks[‹int›]", "loop: o.Tasks has len(tasks) elements"),
-  ("task:Executor.ToEditorOutput", "index", "‹[]*ast.Task›[‹int›]", "loop"),
-  ("task:Executor.compiledTask", "index", "‹[]string›[‹int›]", "guard: len(keys) > 0 only when keys was filled in step with list (map loop variable)"),
-  ("task:Executor.runCommand", "index", "‹*ast.Task›.Cmds[‹int›]", "loop: called with an index of t.Cmds"),
-  ("task:Executor.runDeferred", "index", "‹*ast.Task›.Cmds[‹int›]", "loop: same"),
-  ("task:asAnySlice", "index", "‹[]any›[‹int›]", "loop"),
-  ("task:itemsFromFor", "index", "‹[]string›[‹int›]", "loop"),
-  ("taskfile/ast:Includes.UnmarshalYAML", "index", "‹*yaml.Node›.Content[‹int›+1]", "yaml"),
-  ("taskfile/ast:Includes.UnmarshalYAML", "index", "‹*yaml.Node›.Content[‹int›]", "yaml"),
-  ("taskfile/ast:Matrix.UnmarshalYAML", "index", "‹*yaml.Node›.Content[‹int›+1]", "yaml"),
-  ("taskfile/ast:Matrix.UnmarshalYAML", "index", "‹*yaml.Node›.Content[‹int›]", "yaml"),
-  ("taskfile/ast:Platform.parsePlatform", "index", "‹[]string›[0]", "guard: switch on len(splitValues)"),
-  ("taskfile/ast:Platform.parsePlatform", "index", "‹[]string›[1]", "guard: case 2"),
-  ("taskfile/ast:Task.WildcardMatch", "must", "regexp.MustCompile(‹string›)", "lib: the pattern is ^ + QuoteMeta(name) with \\\\* replaced by (.*) + $ — always a valid expression"),
-  ("taskfile/ast:Task.WildcardMatch", "slice", "‹[]string›[1:]", "guard: len(wildcards) == 0 returns before"),
-  ("taskfile/ast:TaskfileGraph.Merge", "index", "‹[]string›[0]", "lib: a graph with a root vertex sorts to a non-empty list"),
-  ("taskfile/ast:TaskfileGraph.Merge", "index", "‹[]string›[‹int›]", "loop: i from len-1 down to 1"),
-  ("taskfile/ast:Tasks.Merge", "index", "‹*ast.Task›.Aliases[‹int›]", "loop"),
-  ("taskfile/ast:Tasks.UnmarshalYAML", "index", "‹*yaml.Node›.Content[‹int›+1]", "yaml"),
-  ("taskfile/ast:Tasks.UnmarshalYAML", "index", "‹*yaml.Node›.Content[‹int›]", "yaml"),
-  ("taskfile/ast:Var.UnmarshalYAML", "index", "‹*yaml.Node›.Content[0]", "guard: len(node.Content) == 0 returns a decode error before"),
-  ("taskfile/ast:Vars.UnmarshalYAML", "index", "‹*yaml.Node›.Content[‹int›+1]", "yaml"),
-  ("taskfile/ast:Vars.UnmarshalYAML", "index", "‹*yaml.Node›.Content[‹int›]", "yaml"),
-  ("taskfile:NewSnippet", "slice", "‹[]string›[‹*taskfile.Snippet›.start-1 : ‹*taskfile.Snippet›.end]", "guard: start and end are clamped to both line lists (snippet_bounds)"),
-  ("taskfile:Reader.include", "assert", "‹graph.Edge[*ast.TaskfileVertex]›.Properties.Data.([]*ast.Include)", "lib: the only writer of edge data stores []*ast.Include"),
-  ("taskfile:Reader.include", "index", "‹[]*taskfile.includeEdge›[‹int›]", "loop: edges has Includes.Len() slots, i counts the includes"),
-  ("taskfile:Snippet.String", "index", "‹*taskfile.Snippet›.linesRaw[‹int›]", "loop: i ranges over linesHighlighted, which has the same length (both sliced with the same bounds)"),
-  ("taskfile:getScheme", "index", "strings.Split(‹*url.URL›.Path, \"//\")[0]", "split: element 0 always exists"),
-  ("taskfile:getScheme", "slice", "‹string›[:‹int›]", "guard: i := strings.Index(uri, \"://\"); i != -1"),
-  ("taskfile:init", "panic", "panic(‹error›)", "init: chroma style registration with a constant definition"),
+/-- (function, kind, normalised expression, number of occurrences covered, class of the reason, reason).  A row covers
+occurrences `0 … n-1` of that expression in that function (in source order) — the reason was checked for each of them;
+one more occurrence of the same shape is a new, undischarged site. -/
+def discharged : List (String × String × String × Nat × String × String) := [
+  ("args:Get", "slice", "‹[]string›[‹int›:]", 1, "guard", "guard: doubleDashPos = pflag.ArgsLenAtDash() is -1 (returned before) or ≤ len(args)"),
+  ("args:Get", "slice", "‹[]string›[:‹int›]", 1, "guard", "guard: doubleDashPos = pflag.ArgsLenAtDash() is -1 (returned before) or ≤ len(args)"),
+  ("args:splitVar", "index", "‹[]string›[0]", 1, "split", "split: SplitN always returns at least one element"),
+  ("args:splitVar", "index", "‹[]string›[1]", 1, "guard", "guard: only called for arguments that contain '=' (Parse checks strings.Contains(arg, \"=\")), SplitN(s, \"=\", 2) then has two elements"),
+  ("errors:TaskfileDecodeError.Error", "index", "‹*yaml.TypeError›.Errors[0]", 1, "guard", "guard: len(te.Errors) > 1 is handled before, yaml.TypeError has at least one entry"),
+  ("errors:extractTypeErrorMessage", "index", "‹[]string›[1]", 1, "guard", "guard: len(matches) == 2 checked"),
+  ("internal/deepcopy:Slice", "index", "‹[]T›[‹int›]", 2, "loop", "loop: c has the length of the ranged slice"),
+  ("internal/deepcopy:TraverseStringsFunc", "assert", "‹reflect.Value›.Interface().(T)", 1, "lib", "lib: copy is reflect.New of T's type, Elem has dynamic type T"),
+  ("internal/env:GetEnviron", "index", "‹[]string›[0]", 1, "split", "split: SplitN returns at least one element"),
+  ("internal/env:GetEnviron", "index", "‹[]string›[1]", 1, "lib", "lib: os.Environ entries have the form key=value"),
+  ("internal/execext:ExpandLiteral", "index", "‹[]*syntax.Word›[0]", 1, "guard", "guard: len(words) == 0 returns before"),
+  ("internal/output:prefixWriter.writeLine", "index", "PrefixColorSequence[‹uint›%uint(len(PrefixColorSequence))]", 1, "const", "const: modulo the length of a non-empty table"),
+  ("internal/sort:AlphaNumericWithRootTasksFirst", "index", "‹[]string›[‹int›]", 4, "loop", "loop: indices handed to sort.Slice's less function"),
+  ("internal/version:getCommit", "slice", "‹debug.BuildSetting›.Value[:7]", 1, "guard", "guard: len(setting.Value) > 7 branch; vcs.revision is a full hash"),
+  ("task:Compiler.getSpecialVars", "index", "os.‹[]string›[0]", 1, "lib", "lib: a process has a program name"),
+  ("task:Executor.GetTask", "index", "‹[]*task.MatchingTask›[0]", 2, "guard", "guard: len(matchingTasks) > 0"),
+  ("task:Executor.GetTaskList", "index", "‹[]*ast.Task›[‹int›]", 2, "loop", "loop"),
+  ("task:Executor.RunTask", "index", "‹*ast.Task›.Cmds[‹int›]", 1, "loop", "loop: i ranges over t.Cmds"),
+  ("task:Executor.ToEditorOutput", "index", "‹*editors.Taskfile›.Tasks[‹int›]", 2, "loop", "loop: o.Tasks has len(tasks) elements"),
+  ("task:Executor.ToEditorOutput", "index", "‹[]*ast.Task›[‹int›]", 11, "loop", "loop"),
+  ("task:Executor.compiledTask", "index", "‹[]string›[‹int›]", 2, "guard", "guard: len(keys) > 0 only when keys was filled in step with list (map loop variable)"),
+  ("task:Executor.runCommand", "index", "‹*ast.Task›.Cmds[‹int›]", 1, "loop", "loop: called with an index of t.Cmds"),
+  ("task:Executor.runDeferred", "index", "‹*ast.Task›.Cmds[‹int›]", 1, "loop", "loop: same"),
+  ("task:asAnySlice", "index", "‹[]any›[‹int›]", 1, "loop", "loop"),
+  ("task:itemsFromFor", "index", "‹[]string›[‹int›]", 2, "loop", "loop"),
+  ("taskfile/ast:Includes.UnmarshalYAML", "index", "‹*yaml.Node›.Content[‹int›+1]", 1, "yaml", "yaml"),
+  ("taskfile/ast:Includes.UnmarshalYAML", "index", "‹*yaml.Node›.Content[‹int›]", 1, "yaml", "yaml"),
+  ("taskfile/ast:Matrix.UnmarshalYAML", "index", "‹*yaml.Node›.Content[‹int›+1]", 1, "yaml", "yaml"),
+  ("taskfile/ast:Matrix.UnmarshalYAML", "index", "‹*yaml.Node›.Content[‹int›]", 1, "yaml", "yaml"),
+  ("taskfile/ast:Platform.parsePlatform", "index", "‹[]string›[0]", 1, "guard", "guard: switch on len(splitValues)"),
+  ("taskfile/ast:Platform.parsePlatform", "index", "‹[]string›[1]", 1, "guard", "guard: case 2"),
+  ("taskfile/ast:Task.WildcardMatch", "must", "regexp.MustCompile(‹string›)", 1, "lib", "lib: the pattern is ^ + QuoteMeta(name) with \\\\* replaced by (.*) + $ — always a valid expression"),
+  ("taskfile/ast:Task.WildcardMatch", "slice", "‹[]string›[1:]", 1, "guard", "guard: len(wildcards) == 0 returns before"),
+  ("taskfile/ast:TaskfileGraph.Merge", "index", "‹[]string›[0]", 1, "lib", "lib: a graph with a root vertex sorts to a non-empty list"),
+  ("taskfile/ast:TaskfileGraph.Merge", "index", "‹[]string›[‹int›]", 1, "loop", "loop: i from len-1 down to 1"),
+  ("taskfile/ast:Tasks.Merge", "index", "‹*ast.Task›.Aliases[‹int›]", 1, "loop", "loop"),
+  ("taskfile/ast:Tasks.UnmarshalYAML", "index", "‹*yaml.Node›.Content[‹int›+1]", 1, "yaml", "yaml"),
+  ("taskfile/ast:Tasks.UnmarshalYAML", "index", "‹*yaml.Node›.Content[‹int›]", 1, "yaml", "yaml"),
+  ("taskfile/ast:Var.UnmarshalYAML", "index", "‹*yaml.Node›.Content[0]", 1, "guard", "guard: len(node.Content) == 0 returns a decode error before"),
+  ("taskfile/ast:Vars.UnmarshalYAML", "index", "‹*yaml.Node›.Content[‹int›+1]", 1, "yaml", "yaml"),
+  ("taskfile/ast:Vars.UnmarshalYAML", "index", "‹*yaml.Node›.Content[‹int›]", 1, "yaml", "yaml"),
+  ("taskfile:NewSnippet", "slice", "‹[]string›[‹*taskfile.Snippet›.start-1 : ‹*taskfile.Snippet›.end]", 2, "guard", "guard: start and end are clamped to both line lists (snippet_bounds)"),
+  ("taskfile:Reader.include", "assert", "‹graph.Edge[*ast.TaskfileVertex]›.Properties.Data.([]*ast.Include)", 1, "lib", "lib: the only writer of edge data stores []*ast.Include"),
+  ("taskfile:Reader.include", "index", "‹[]*taskfile.includeEdge›[‹int›]", 1, "loop", "loop: edges has Includes.Len() slots, i counts the includes"),
+  ("taskfile:Snippet.String", "index", "‹*taskfile.Snippet›.linesRaw[‹int›]", 1, "loop", "loop: i ranges over linesHighlighted, which has the same length (both sliced with the same bounds)"),
+  ("taskfile:getScheme", "index", "strings.Split(‹*url.URL›.Path, \"//\")[0]", 1, "split", "split: element 0 always exists"),
+  ("taskfile:getScheme", "slice", "‹string›[:‹int›]", 1, "guard", "guard: i := strings.Index(uri, \"://\"); i != -1"),
+  ("taskfile:init", "panic", "panic(‹error›)", 2, "init", "init: chroma style registration with a constant definition"),
+  -- the command-line front end, flags / environment / .taskrc readers, logger, watch mode (scope added after audit C)
+  ("cmd/task:run", "index", "‹[]string›[0]", 1, "guard", "guard: len(args) > 0 checked on the line before"),
+  ("internal/experiments:Parse", "unchecked", "taskrc.NewNode(\"\", ‹string›)", 1, "guard", "guard: the nil node of a failed search is handed to Reader.Read, which returns os.ErrInvalid for a nil node before touching it"),
+  ("internal/experiments:Parse", "unchecked", "‹*taskrc.Reader›.Read(‹*taskrc.Node›)", 1, "guard", "guard: the nil config of a failed read is handed to experiments.New, which checks config != nil before reading the map"),
+  ("internal/flags:init", "slice", "os.‹[]string›[1:]", 1, "lib", "lib: a process has a program name (len(os.Args) ≥ 1)"),
+  ("internal/logger:Logger.Prompt", "index", "‹[]string›[0]", 1, "guard", "guard: len(continueValues) == 0 returns an error before"),
+  ("internal/logger:envColor", "index", "‹[]color.Attribute›[‹int›]", 1, "loop", "loop: attributes has len(attributeStrs) elements, i ranges over attributeStrs"),
+  ("internal/slicesext:Convert", "index", "‹[]U›[‹int›]", 1, "loop", "loop: result has len(s) elements, i ranges over s"),
+  ("internal/slicesext:UniqueJoin", "slice", "‹[]T›[‹int›:]", 1, "loop", "loop: i is the number of elements copied so far, never more than the total length r was made with"),
+  ("task:Executor.watchTasks", "index", "‹[]string›[‹int›]", 1, "loop", "loop: tasks has len(calls) elements, i ranges over calls"),
   -- `nilelem`: a field of the element of a list of pointers read in a loop without a nil guard (a null YAML list entry
-  -- decodes to a nil element).  The lists below never hold one:
-  ("internal/fingerprint:ChecksumChecker.IsUpToDate", "nilelem", "range ‹*ast.Task›.Generates: ‹*ast.Glob›.Negate", "compiled: the checkers are handed the COMPILED task; its Generates come from templater.ReplaceGlobs, which drops nil entries (compiled_lists_nil_free)"),
-  ("internal/fingerprint:TimestampChecker.IsUpToDate", "nilelem", "range ‹*ast.Task›.Generates: ‹*ast.Glob›.Negate", "compiled: same"),
-  ("internal/fingerprint:Globs", "nilelem", "range ‹[]*ast.Glob›: ‹*ast.Glob›.Glob", "compiled: called with Sources / Generates of a compiled task (ReplaceGlobs dropped the nil entries)"),
-  ("internal/summary:printTaskCommands", "nilelem", "range ‹*ast.Task›.Cmds: ‹*ast.Cmd›.Cmd", "compiled: PrintTask gets the compiled task; compiledTask skips nil commands (compiled_lists_nil_free)"),
-  ("internal/summary:printTaskDependencies", "nilelem", "range ‹*ast.Task›.Deps: ‹*ast.Dep›.Task", "compiled: same, nil dependencies are skipped"),
-  ("task:Executor.areTaskPreconditionsMet", "nilelem", "range ‹*ast.Task›.Preconditions: ‹*ast.Precondition›.Sh", "compiled: RunTask passes the compiled task; nil preconditions are skipped (compiled_lists_nil_free)"),
-  ("task:Executor.ListTasks", "nilelem", "range ‹[]*ast.Task›: ‹*ast.Task›.Task", "code: the list is built by GetTaskList from compiled tasks (each the address of a fresh struct)"),
-  ("task:Executor.Run", "nilelem", "range ‹[]*task.Call›: ‹*task.Call›.Task", "code: calls are built by args.Parse / the CLI as &task.Call{…}; an API argument, not decoded input"),
-  ("taskfile/ast:NewIncludes", "nilelem", "range ‹[]*ast.IncludeElement›: ‹*ast.IncludeElement›.Key", "code: constructor arguments written in Go, not decoded input"),
-  ("taskfile/ast:NewMatrix", "nilelem", "range ‹[]*ast.MatrixElement›: ‹*ast.MatrixElement›.Key", "code: same"),
-  ("taskfile/ast:NewTasks", "nilelem", "range ‹[]*ast.TaskElement›: ‹*ast.TaskElement›.Key", "code: same"),
-  ("taskfile/ast:NewVars", "nilelem", "range ‹[]*ast.VarElement›: ‹*ast.VarElement›.Key", "code: same")]
+  -- decodes to a nil element).  The lists below never hold one.  `compiled` reasons are CHECKED: see `flowsOk`.
+  ("internal/fingerprint:ChecksumChecker.IsUpToDate", "nilelem", "range ‹*ast.Task›.Generates: ‹*ast.Glob›.Negate", 1, "compiled", "compiled: the checkers are handed the COMPILED task; its Generates come from templater.ReplaceGlobs, which drops nil entries (compiled_lists_nil_free)"),
+  ("internal/fingerprint:TimestampChecker.IsUpToDate", "nilelem", "range ‹*ast.Task›.Generates: ‹*ast.Glob›.Negate", 1, "compiled", "compiled: same"),
+  ("internal/summary:printTaskCommands", "nilelem", "range ‹*ast.Task›.Cmds: ‹*ast.Cmd›.Cmd", 1, "compiled", "compiled: PrintTask gets the compiled task; compiledTask skips nil commands (compiled_lists_nil_free)"),
+  ("internal/summary:printTaskDependencies", "nilelem", "range ‹*ast.Task›.Deps: ‹*ast.Dep›.Task", 1, "compiled", "compiled: same, nil dependencies are skipped"),
+  ("task:Executor.areTaskPreconditionsMet", "nilelem", "range ‹*ast.Task›.Preconditions: ‹*ast.Precondition›.Sh", 1, "compiled", "compiled: RunTask passes the compiled task; nil preconditions are skipped (compiled_lists_nil_free)"),
+  ("task:Executor.ListTasks", "nilelem", "range ‹[]*ast.Task›: ‹*ast.Task›.Task", 1, "code", "code: the list is built by GetTaskList from compiled tasks (each the address of a fresh struct)"),
+  ("task:Executor.Run", "nilelem", "range ‹[]*task.Call›: ‹*task.Call›.Task", 1, "code", "code: calls are built by args.Parse / the CLI as &task.Call{…}; an API argument, not decoded input"),
+  ("taskfile/ast:NewIncludes", "nilelem", "range ‹[]*ast.IncludeElement›: ‹*ast.IncludeElement›.Key", 1, "code", "code: constructor arguments written in Go, not decoded input"),
+  ("taskfile/ast:NewMatrix", "nilelem", "range ‹[]*ast.MatrixElement›: ‹*ast.MatrixElement›.Key", 1, "code", "code: same"),
+  ("taskfile/ast:NewTasks", "nilelem", "range ‹[]*ast.TaskElement›: ‹*ast.TaskElement›.Key", 1, "code", "code: same"),
+  ("taskfile/ast:NewVars", "nilelem", "range ‹[]*ast.VarElement›: ‹*ast.VarElement›.Key", 1, "code", "code: same"),
+  ("task:Executor.watchTasks", "nilelem", "range ‹[]*task.Call›: ‹*task.Call›.Task", 1, "code", "code: calls are built by args.Parse / the CLI as &task.Call{…}; an API argument, not decoded input"),
+  ("task:Executor.registerWatchedDirs", "nilelem", "range ‹*ast.Task›.Cmds: ‹*ast.Cmd›.Task", 1, "compiled", "compiled: the task is the result of e.CompiledTask in the same closure (taskFlows row); compiledTask skips nil commands"),
+  ("task:Executor.registerWatchedDirs", "nilelem", "range ‹*ast.Task›.Deps: ‹*ast.Dep›.Task", 1, "compiled", "compiled: same, nil dependencies are skipped")]
 
-def isDischarged (s : String × String × String) : Bool :=
-  discharged.any (fun d => d.1 == s.1 && d.2.1 == s.2.1 && d.2.2.1 == s.2.2)
+def isDischarged (s : String × String × String × Nat) : Bool :=
+  discharged.any (fun d => d.1 == s.1 && d.2.1 == s.2.1 && d.2.2.1 == s.2.2.1 && s.2.2.2 < d.2.2.2.1)
+
+/-! ### the fact behind the `compiled` reasons, checked
+
+A `compiled` reason says: the task whose list is ranged over is the COMPILED task (its `Cmds`, `Deps`, `Preconditions`
+hold no nil entry, its `Sources` / `Generates` come out of `ReplaceGlobs`: `compiled_lists_nil_free`).  That is a claim
+about every CALLER, and it was false once (`fingerprint.Globs` in watch mode, fix O8-3; `Globs` now guards by itself and
+has no row any more).  `Gen.PanicSites.taskFlows` lists every call of the module that hands over a `*ast.Task` (or a
+list of them) with the origin of that value in the calling function, and for loops over a local task the origin of the
+local.  `flowsOk n f`: every row for `f` has its task from one of the `compiledProducers`, or takes it from a parameter of
+a function for which the same holds (`n` levels up), or sits in a function nothing refers to (`deadFuncs`:
+`summary.PrintTasks`, which would hand over RAW tasks, is such a function) — and there is at least one row. -/
+
+/-- functions whose result is a compiled task (or a list of compiled tasks) -/
+def compiledProducers : List String :=
+  ["task:Executor.CompiledTask", "task:Executor.FastCompiledTask", "task:Executor.compiledTask",
+   "task:Executor.GetTaskList"]   -- GetTaskList replaces every element by FastCompiledTask's result before returning
+
+def flowRowOk (recur : String → Bool) (r : String × String × String × String) : Bool :=
+  TaskModel.Gen.PanicSites.deadFuncs.contains r.2.1 ||
+  (r.2.2.1 == "call" && compiledProducers.contains r.2.2.2) ||
+  (r.2.2.1 == "param" && recur r.2.1)
+
+def flowsOkIn (rows : List (String × String × String × String)) : Nat → String → Bool
+  | 0, _ => false
+  | n + 1, f =>
+    rows.any (fun r => r.1 == f) &&
+    rows.all (fun r => r.1 != f || flowRowOk (flowsOkIn rows n) r)
+
+def flowsOk (n : Nat) (f : String) : Bool := flowsOkIn TaskModel.Gen.PanicSites.taskFlows n f
+
+/-- the functions whose discharge reason is `compiled` -/
+def compiledConsumers : List String :=
+  (discharged.filter (fun d => d.2.2.2.2.1 == "compiled")).map (·.1)
+
+/-! ### termination of the recursive functions
+
+`Gen.PanicSites.recursive`: every function of the module on a cycle of the static call graph (calls through interfaces
+reach every implementing method; a closure that calls itself through the variable it is assigned to is `f·g`).  Each
+needs a bound, recorded here with its class: `visited` = a set of visited nodes checked before the recursive call,
+`counter` = a call counter with a fixed maximum, `structural` = the argument of the recursive call is a proper part of
+the argument (finite tree), `nocycle` = the static cycle cannot be taken at run time (said why). -/
+
+def terminates : List (String × String × String) := [
+  ("errors:TaskfileDecodeError.Debug·debug", "structural", "follows errors.Unwrap of the wrapped error: a finite chain built by fmt.Errorf / the decoders"),
+  ("internal/deepcopy:TraverseStringsFunc·traverseFunc", "structural", "recursion on the fields / elements / map values of a reflect.Value decoded by yaml.v3 into `any`: aliases are expanded into copies, the value is a finite tree (a time.Time is left alone since 920130a)"),
+  ("internal/flags:flagsOption.ApplyToExecutor", "nocycle", "ApplyToExecutor calls e.Options with the task.With… options only; none of them is a flagsOption, so Options does not come back here (the cycle is an artefact of resolving the interface call ExecutorOption.ApplyToExecutor to every implementation)"),
+  ("task:Executor.Options", "nocycle", "same"),
+  ("task:Executor.RunTask", "counter", "every RunTask increments taskCallCount[t.Task] and stops at MaximumTaskCall (Gen.Codes.maximumTaskCall), and a call never waits for an execution that waits for it (C07_terminates_all, C07_no_deadlock); under --watch the counter is off and the bound is the fingerprint check of the tasks (a legal cycle is one that sources / status end)"),
+  ("task:Executor.runCommand", "counter", "member of RunTask's cycle"),
+  ("task:Executor.runDeferred", "counter", "member of RunTask's cycle"),
+  ("task:Executor.runDeps", "counter", "member of RunTask's cycle"),
+  ("task:Executor.registerWatchedDirs·registerTaskDirs", "visited", "fix O8-5: a (task, hash of the call variables) pair is visited once (`visited`), and a task at most MaximumTaskCall times (`visits`) — before the fix a cyclic call graph kept the walk going for ever"),
+  ("task:execution.waitsFor·visit", "visited", "`seen` is checked and set before the loop over x.waits"),
+  ("taskfile/ast:Includes.Set", "nocycle", "Set calls NewIncludes() without elements (only to create an empty map); NewIncludes calls Set once per element it was given: none"),
+  ("taskfile/ast:NewIncludes", "nocycle", "same"),
+  ("taskfile/ast:Matrix.Set", "nocycle", "same pattern: NewMatrix() without elements"),
+  ("taskfile/ast:NewMatrix", "nocycle", "same"),
+  ("taskfile/ast:Tasks.Set", "nocycle", "same pattern: NewTasks() without elements"),
+  ("taskfile/ast:NewTasks", "nocycle", "same"),
+  ("taskfile/ast:Vars.Set", "nocycle", "same pattern: NewVars() without elements"),
+  ("taskfile/ast:NewVars", "nocycle", "same"),
+  ("taskfile:Reader.include", "visited", "a vertex is added to the graph before its includes are read; AddVertex of a known hash returns ErrVertexAlreadyExists and the function returns; an edge that would close a cycle is refused (ErrEdgeCreatesCycle → TaskfileCycleError, C08_cycle)")]
+
+def boundClasses : List String := ["visited", "counter", "structural", "nocycle"]
+
+def isBounded (r : String × String) : Bool :=
+  terminates.any (fun t => t.1 == r.1 && boundClasses.contains t.2.1)
 
 /-! ### the fact behind the `compiled` reasons
 
